@@ -268,35 +268,38 @@ func runC03(c *Ctx) {
 
 // artifact entry point: the ArtifactResponse carries its own Issuer and Status
 func c03Artifact(c *Ctx, g *Group) {
-	cfg := defaultCfg()
 	now := baseNow
 	n := 0
-	for _, f := range []string{"issuer", "status"} {
-		for k := range variantNames {
-			for _, signAR := range []bool{true, false} {
-				n++
-				rs, as := validSpecs(cfg, now, fmt.Sprintf("art%d", n))
-				a := buildAssertion(as)
-				if !signAR {
-					SignInto(a, 0)
-				}
-				r := buildResponse(rs, a)
-				ars := RespSpec{Tag: "ArtifactResponse", ID: fmt.Sprintf("ar-%d", n), IRT: sp("resolve-1"), Issue: rs.Issue, Issuer: sp(cfg.IdpEntity), Status: sp(statusSuccess)}
-				if f == "issuer" {
-					ars.Issuer = variant(cfg.IdpEntity, k)
-				} else {
-					ars.Status = variant(statusSuccess, k)
-					if k == 1 {
-						ars.Status = sp("urn:oasis:names:tc:SAML:2.0:status:Requester")
+	for vi, set := range []func(c *Cfg){func(c *Cfg) {}, func(c *Cfg) { c.AllowIdpInit = true }, func(c *Cfg) { c.CustomReqID, c.CustomAud = Bptr(true), Bptr(true) }} {
+		cfg := defaultCfg()
+		set(&cfg)
+		for _, f := range []string{"issuer", "status"} {
+			for k := range variantNames {
+				for _, signAR := range []bool{true, false} {
+					n++
+					rs, as := validSpecs(cfg, now, fmt.Sprintf("art%d", n))
+					a := buildAssertion(as)
+					if !signAR {
+						SignInto(a, 0)
 					}
+					r := buildResponse(rs, a)
+					ars := RespSpec{Tag: "ArtifactResponse", ID: fmt.Sprintf("ar-%d", n), IRT: sp("resolve-1"), Issue: rs.Issue, Issuer: sp(cfg.IdpEntity), Status: sp(statusSuccess)}
+					if f == "issuer" {
+						ars.Issuer = variant(cfg.IdpEntity, k)
+					} else {
+						ars.Status = variant(statusSuccess, k)
+						if k == 1 {
+							ars.Status = sp("urn:oasis:names:tc:SAML:2.0:status:Requester")
+						}
+					}
+					ar := buildResponse(ars, r)
+					if signAR {
+						SignInto(ar, 0)
+					}
+					key := map[string]string{"class": "artifact", "variant": fmt.Sprint(vi), "f1": "artifact_" + f, "v1": variantNames[k], "signed": fmt.Sprint(signAR)}
+					c.Count("class/artifact")
+					addRun(c, g, &Run{Cfg: cfg, IDs: []string{"req-1"}, Now: now, Cur: cfg.AcsURL, Entry: 1, Rid: "resolve-1", Doc: soapWrap(ar)}, key, false)
 				}
-				ar := buildResponse(ars, r)
-				if signAR {
-					SignInto(ar, 0)
-				}
-				key := map[string]string{"class": "artifact", "f1": "artifact_" + f, "v1": variantNames[k], "signed": fmt.Sprint(signAR)}
-				c.Count("class/artifact")
-				addRun(c, g, &Run{Cfg: cfg, IDs: []string{"req-1"}, Now: now, Cur: cfg.AcsURL, Entry: 1, Rid: "resolve-1", Doc: soapWrap(ar)}, key, false)
 			}
 		}
 	}
